@@ -71,6 +71,19 @@ func checkC18(r *run, c *TimeCase) (CaseInfo, error) {
 	if abs64(got-c.O) > 1 || (got != 0 && (got < 0) != (c.O < 0)) {
 		return ci, failf("capture clock offset %d ns recovered as %d ns", c.O, got)
 	}
+	// ... and through Marshal/Unmarshal (the offset travels as the second 64-bit word)
+	if ob, err := eo.Marshal(); err != nil || len(ob) != 16 {
+		return ci, failf("Marshal of an extension with offset: %d bytes, %v", len(ob), err)
+	} else {
+		var back rtp.AbsCaptureTimeExtension
+		if err := back.Unmarshal(ob); err != nil {
+			return ci, failf("Unmarshal of the 16-byte form: %v", err)
+		}
+		bd := back.EstimatedCaptureClockOffsetDuration()
+		if bd == nil || abs64(int64(*bd)-c.O) > 1 || (int64(*bd) != 0 && (int64(*bd) < 0) != (c.O < 0)) {
+			return ci, failf("capture clock offset %d ns is not recovered after Marshal/Unmarshal (wire %s)", c.O, hx(ob))
+		}
+	}
 	if abs64(eo.CaptureTime().UnixNano()-c.T) > 1 {
 		return ci, failf("offset constructor: capture time %d vs %d", eo.CaptureTime().UnixNano(), c.T)
 	}
